@@ -214,6 +214,20 @@ def defaultsOk (deps dmr : Option String) : Option String :=
   else if bad dmr then some "default_max_relative() is not f64::EPSILON"
   else none
 
+/-- "implied by ==" (C17): when the implementation's own `PartialEq` says the two values are equal, all their numbers are
+finite and the tolerance is a non-negative number, the relation must hold -/
+def eqImplies (eq : Option String) (nums : List FX) (tols : List FX) (impl : Out) : Option String :=
+  let finite (x : FX) : Bool := match x with
+    | .v a => !(a.isNaN || a.isInf)
+    | _ => false
+  let nonneg (x : FX) : Bool := match x with
+    | .v a => finite x && F64.le (F64.zero false) a
+    | _ => false
+  match eq, impl with
+  | some "1", .bool false =>
+    if nums.all finite && tols.all nonneg then some "== holds for the two values but the approximate relation does not (not implied by ==)" else none
+  | _, _ => none
+
 def approxAbs (p q : List FX) (eps : FX) (impl : Out) : Option String :=
   match impl with
   | .bool b => if b == all2 (fun a b => absR a b eps) p q then none else some "abs_diff_eq is not the conjunction over corresponding numbers"
